@@ -3,7 +3,7 @@
 From Coq Require Import List NArith Bool Arith Lia String.
 From RG.Ast Require Import Tree Walker WalkerProof WalkSpec WfCheck WalkPanic.
 From RG.Engine Require Import RunState.
-From RGW Require Import Gen_AstSchema Gen_Walker Gen_WalkTables Gen_WalkState Gen_RunnerState Inst_Walker Inst_RunState.
+From RGW Require Import Gen_AstSchema Gen_Walker Gen_WalkTags Gen_WalkState Gen_RunnerState Inst_Walker Inst_RunState.
 Import ListNotations.
 
 (* positions in the walk where context is pushed and popped: whatever the dead-code flag, the current function and
